@@ -7476,3 +7476,367 @@ func ruleNoUnlockOfUnheld(r *Run) {
 	}
 	r.check(n >= 100, "repo:releases", fmt.Sprintf("%d decided, %d in function literals not decided", n, skipped), "too few: rule needs review", "-")
 }
+
+// ---------------------------------------------------------------------------------------------
+// R7.19 — no child is inserted without one of the two branch scans
+
+func init() {
+	register(ruleDef{ID: "R7.19", Prop: "C07", Tier: "quick", Floor: 2,
+		Title: "no version is inserted without a scan for its branch name: in repoManager.newVersion every path from the entry to the insertion of the child into the DAG's node map starts one of the two uniqueness scans — the loop over the parent's children or the loop over all nodes of the DAG (a request class that runs neither scan, e.g. a branch request naming the parent's own branch, gives one branch two heads)",
+		Fn:    ruleInsertBehindBranchScan})
+}
+
+func ruleInsertBehindBranchScan(r *Run) {
+	w := r.W
+	f := w.method("datastore", "repoManager", "newVersion")
+	if f == nil || len(f.Blocks) == 0 {
+		r.undecided("datastore.repoManager.newVersion", "anchor not found")
+		return
+	}
+	isScanStart := func(in ssa.Instruction) bool {
+		switch x := in.(type) {
+		case *ssa.Range:
+			return isFieldLoad(x.X, "dagT", "nodes")
+		case *ssa.UnOp:
+			if x.Op != token.MUL {
+				return false
+			}
+			fa, ok := x.X.(*ssa.FieldAddr)
+			if !ok {
+				return false
+			}
+			if name, _, _ := fieldName(fa); name != "children" {
+				return false
+			}
+			// the slice is walked: its length is taken or it is indexed
+			for _, ref := range *x.Referrers() {
+				switch y := ref.(type) {
+				case *ssa.Call:
+					if bi, ok := y.Call.Value.(*ssa.Builtin); ok && bi.Name() == "len" {
+						return true
+					}
+				case *ssa.IndexAddr, *ssa.Index:
+					return true
+				}
+			}
+		}
+		return false
+	}
+	nScan, nIns := 0, 0
+	for _, b := range f.Blocks {
+		for _, in := range b.Instrs {
+			if isScanStart(in) {
+				nScan++
+			}
+		}
+	}
+	for _, b := range f.Blocks {
+		for _, in := range b.Instrs {
+			mu, ok := in.(*ssa.MapUpdate)
+			if !ok || !isFieldLoad(mu.Map, "dagT", "nodes") {
+				continue
+			}
+			nIns++
+			pth := consistentPath(f, nil, isScanStart, func(x ssa.Instruction) bool { return x == in })
+			r.check(pth == nil, fmt.Sprintf("newVersion:insert#%d:behind-a-branch-scan", nIns), "every path to the insertion starts a scan of the siblings or of the whole DAG",
+				"a path reaches the insertion of the new version into the DAG without having scanned the parent's children or the DAG's nodes for the branch name: that class of requests can give one branch two heads", w.pos(in.Pos()), w.renderPath(pth)...)
+		}
+	}
+	r.check(nScan >= 2 && nIns >= 1, "newVersion:scans-and-insertions", fmt.Sprintf("%d scan starts, %d insertions", nScan, nIns), "anchor not found: rule needs review", w.fpos(f))
+}
+
+// ---------------------------------------------------------------------------------------------
+// R5.22 — a value read inside the interval is put out or the request fails
+
+func init() {
+	register(ruleDef{ID: "R5.22", Prop: "C05", Tier: "quick", Floor: 3,
+		Title: "a value read inside the interval is put out or the request fails: in the keyvalue package, in every range callback (a function literal that receives a *storage.Chunk) that deserializes the stored value, each path from the deserialization to a success return passes a point where that value itself is written to the response, stored into the reply being built, or sent on — a value that fails a check ends the request with an error, it is not left out of a reply that then looks complete",
+		Fn:    ruleRangeValuePutOutOrError})
+}
+
+func ruleRangeValuePutOutOrError(r *Run) {
+	w := r.W
+	n := 0
+	for _, g := range w.RepoFuncs {
+		if len(g.Blocks) == 0 || g.Parent() == nil || relPkg(pkgPathOf(g)) != "datatype/keyvalue" || isTestFunc(w, g) {
+			continue
+		}
+		isCallback := false
+		for _, p := range g.Params {
+			if strings.HasSuffix(p.Type().String(), "storage.Chunk") {
+				isCallback = true
+			}
+		}
+		if !isCallback {
+			continue
+		}
+		for _, c := range calls(g) {
+			callee := staticCallee(c)
+			if callee == nil || callee.Name() != "DeserializeData" {
+				continue
+			}
+			var val ssa.Value
+			if cv := c.Value(); cv != nil {
+				for _, ref := range *cv.Referrers() {
+					if ex, ok := ref.(*ssa.Extract); ok && ex.Index == 0 {
+						val = ex
+					}
+				}
+			}
+			if val == nil {
+				continue
+			}
+			n++
+			var flows func(v ssa.Value, depth int) bool
+			flows = func(v ssa.Value, depth int) bool {
+				if depth > 8 {
+					return false
+				}
+				if v == val {
+					return true
+				}
+				switch x := v.(type) {
+				case *ssa.Phi:
+					for _, e := range x.Edges {
+						if flows(e, depth+1) {
+							return true
+						}
+					}
+				case *ssa.ChangeType:
+					return flows(x.X, depth+1)
+				case *ssa.Convert:
+					return flows(x.X, depth+1)
+				case *ssa.Slice:
+					return flows(x.X, depth+1)
+				case *ssa.MakeInterface:
+					return flows(x.X, depth+1)
+				}
+				return false
+			}
+			putOut := func(in ssa.Instruction) bool {
+				switch x := in.(type) {
+				case *ssa.Store:
+					return flows(x.Val, 0)
+				case *ssa.Send:
+					return flows(x.X, 0)
+				case ssa.CallInstruction:
+					if name := methodNameOf(x); name == "Write" || name == "WriteString" {
+						for _, a := range x.Common().Args {
+							if flows(a, 0) {
+								return true
+							}
+						}
+					}
+				}
+				return false
+			}
+			pth := consistentPath(g, c, putOut, successExit)
+			r.check(pth == nil, fmt.Sprintf("%s:deserialized-value#%d:put-out-or-error", fname(g), n), "every success path puts the value out",
+				"a path leads from the deserialization of a stored value to a success return of the range callback without the value being written, stored into the reply or sent on: the key is missing from a reply that ends as if it were complete, although a read of that key returns the value", w.pos(c.Pos()), w.renderPath(pth)...)
+		}
+	}
+	r.check(n >= 2, "keyvalue:range-callbacks-that-deserialize", fmt.Sprintf("%d", n), "too few: rule needs review", "-")
+}
+
+// ---------------------------------------------------------------------------------------------
+// R1.21 — an unresolved conflict on a parent's lineage is retried or reported, never dropped
+// R1.22 — every candidate of a merge passes the supersession filter
+
+func init() {
+	register(ruleDef{ID: "R1.21", Prop: "C01", Tier: "quick", Floor: 3,
+		Title: "an unresolved conflict on a parent's lineage is retried or reported, never dropped: in repoManager.findMatch, behind the error edge of each recursive call made in a loop, every path either returns an error or records the parent in a list that a later loop walks with another recursive call — and a call in a loop over such a list returns the error (a read at a merge of merges must not succeed with one of several unsuperseded values)",
+		Fn:    ruleConflictRetriedOrReported})
+	register(ruleDef{ID: "R1.22", Prop: "C01", Tier: "quick", Floor: 2,
+		Title: "every candidate of a merge passes the supersession filter: in repoManager.findMatch every path from a recursive call made in a loop to a success return of a value enters the loop over the collected candidate versions that reads their 'invalid' mark (a lone candidate that another parent's lineage has deleted or superseded is not returned as live)",
+		Fn:    ruleEveryCandidateFiltered})
+}
+
+func findMatchRecursiveCalls(f *ssa.Function) []*ssa.Call {
+	var out []*ssa.Call
+	for _, c := range calls(f) {
+		if cc, ok := c.(*ssa.Call); ok && cc.Call.StaticCallee() == f {
+			if _, set, _ := innermostLoop(f, cc.Block()); set != nil {
+				out = append(out, cc)
+			}
+		}
+	}
+	return out
+}
+
+func ruleConflictRetriedOrReported(r *Run) {
+	w := r.W
+	f := w.method("datastore", "repoManager", "findMatch")
+	if f == nil || len(f.Blocks) == 0 {
+		r.undecided("datastore.repoManager.findMatch", "anchor not found")
+		return
+	}
+	rec := findMatchRecursiveCalls(f)
+	// retry lists: slices appended to behind an error edge and walked by a loop that holds a recursive call
+	walked := func(al ssa.Value, notIn map[*ssa.BasicBlock]bool) bool {
+		for _, c := range rec {
+			_, set, _ := innermostLoop(f, c.Block())
+			if set == nil || (notIn != nil && notIn[c.Block()]) {
+				continue
+			}
+			// the call's version argument comes from an element of the list
+			for d := range dataDeps(c.Call.Args[len(c.Call.Args)-1]) {
+				if d == al {
+					return true
+				}
+			}
+		}
+		return false
+	}
+	n := 0
+	for _, c := range rec {
+		var errV ssa.Value
+		for _, ref := range *c.Referrers() {
+			if ex, ok := ref.(*ssa.Extract); ok && ex.Index == 2 {
+				errV = ex
+			}
+		}
+		if errV == nil {
+			continue
+		}
+		var ifi *ssa.If
+		succ := 0
+		for _, ref := range *errV.Referrers() {
+			bo, ok := ref.(*ssa.BinOp)
+			if !ok || !isNilConst(bo.Y) {
+				continue
+			}
+			for _, ref2 := range *bo.Referrers() {
+				if i, ok := ref2.(*ssa.If); ok {
+					ifi = i
+					if bo.Op == token.EQL {
+						succ = 1
+					}
+				}
+			}
+		}
+		if ifi == nil {
+			continue
+		}
+		n++
+		_, myLoop, _ := innermostLoop(f, c.Block())
+		start := ifi.Block().Succs[succ]
+		recorded := func(in ssa.Instruction) bool {
+			st, ok := in.(*ssa.Store)
+			if ok {
+				// conflicted = append(conflicted, parent) spilled to a cell
+				if walked(st.Addr, myLoop) {
+					return true
+				}
+			}
+			if cc, ok := in.(*ssa.Call); ok {
+				if bi, ok := cc.Call.Value.(*ssa.Builtin); ok && bi.Name() == "append" {
+					// the appended-to slice is a phi walked by a later loop
+					for _, ref := range *cc.Referrers() {
+						if phi, ok := ref.(*ssa.Phi); ok && walked(phi, myLoop) {
+							return true
+						}
+					}
+					if walked(cc, myLoop) {
+						return true
+					}
+				}
+			}
+			return false
+		}
+		// from the error edge: an error return ends the path well; anything else — the next pass or a success
+		// return — must lie behind the recording
+		target := func(in ssa.Instruction) bool {
+			if successExit(in) {
+				return true
+			}
+			// going round: the first instruction of the loop header
+			if h, _, _ := innermostLoop(f, c.Block()); h != nil && in == h.Instrs[0] {
+				return true
+			}
+			return false
+		}
+		var pth []ssa.Instruction
+		first := start.Instrs[0]
+		if recorded(first) {
+			pth = nil
+		} else if target(first) {
+			pth = []ssa.Instruction{first}
+		} else {
+			pth = consistentPath(f, first, func(in ssa.Instruction) bool {
+				if ret, ok := in.(*ssa.Return); ok && isErrorExit(ret) {
+					return true
+				}
+				return recorded(in)
+			}, target)
+		}
+		r.check(pth == nil, fmt.Sprintf("findMatch:recursive-call#%d:error-retried-or-returned", n), "behind the error edge the parent is recorded for the retry pass or the error is returned",
+			"behind the error edge of a recursive call the walk goes on (or succeeds) without the parent being recorded for a later pass and without returning the error: an unresolved conflict on that lineage is dropped, and the read at a merge of merges succeeds with one of several unsuperseded values", w.pos(c.Pos()), w.renderPath(pth)...)
+	}
+	r.check(n >= 2, "findMatch:recursive-calls-in-loops", fmt.Sprintf("%d", n), "too few: rule needs review", w.fpos(f))
+}
+
+func ruleEveryCandidateFiltered(r *Run) {
+	w := r.W
+	f := w.method("datastore", "repoManager", "findMatch")
+	if f == nil || len(f.Blocks) == 0 {
+		r.undecided("datastore.repoManager.findMatch", "anchor not found")
+		return
+	}
+	// the filter: a range over a map keyed by VersionID whose loop reads a field named invalid
+	isFilter := func(in ssa.Instruction) bool {
+		rg, ok := in.(*ssa.Range)
+		if !ok {
+			return false
+		}
+		mt, ok := rg.X.Type().Underlying().(*types.Map)
+		if !ok || !strings.HasSuffix(mt.Key().String(), "dvid.VersionID") {
+			return false
+		}
+		// the loop that consumes this iterator
+		for _, ref := range *rg.Referrers() {
+			nx, ok := ref.(*ssa.Next)
+			if !ok {
+				continue
+			}
+			_, set, _ := innermostLoop(f, nx.Block())
+			for b := range set {
+				for _, x := range b.Instrs {
+					switch y := x.(type) {
+					case *ssa.FieldAddr:
+						if name, _, _ := fieldName(y); name == "invalid" {
+							return true
+						}
+					case *ssa.Field:
+						if st, ok := y.X.Type().Underlying().(*types.Struct); ok && st.Field(y.Field).Name() == "invalid" {
+							return true
+						}
+					}
+				}
+			}
+		}
+		return false
+	}
+	nF := 0
+	for _, b := range f.Blocks {
+		for _, in := range b.Instrs {
+			if isFilter(in) {
+				nF++
+			}
+		}
+	}
+	valueReturn := func(in ssa.Instruction) bool {
+		ret, ok := in.(*ssa.Return)
+		if !ok || len(ret.Results) == 0 || isErrorExit(ret) {
+			return false
+		}
+		return !isNilConst(ret.Results[0])
+	}
+	n := 0
+	for _, c := range findMatchRecursiveCalls(f) {
+		n++
+		pth := consistentPath(f, c, isFilter, valueReturn)
+		r.check(pth == nil, fmt.Sprintf("findMatch:recursive-call#%d:value-returned-behind-the-filter", n), "a value is returned only after the candidates' invalid marks were read",
+			"a path leads from a recursive call on a parent to a success return of a value without entering the loop that removes superseded candidates: a lone candidate that another parent's lineage deleted or overwrote is returned as live", w.pos(c.Pos()), w.renderPath(pth)...)
+	}
+	r.check(n >= 2 && nF >= 1, "findMatch:filter", fmt.Sprintf("%d recursive calls in loops, %d filter loops", n, nF), "anchor not found: rule needs review", w.fpos(f))
+}
